@@ -178,6 +178,32 @@ func init() {
 			return out
 		},
 		Extra: func(tier string, shard, of int) ExtraResult { return SelectExtra(tier, shard, of, "C02") }})
+	register(&Check{ID: "C08", Level: "model_checking", Workers: 16,
+		Rule: "explicit-state DFS (iterative deepening) with node.BeginBlocker executed at every height: {add capacity, remove capacity (round and non-round sizes), claim, store+complete, terminate, next block} by two providers under two parameter sets (pledge above / below baseline); per block: supply delta == coinbase events == reward counter delta <= schedule bound; per state: claimed + claimable per provider vs an independent capacity x blocks reference, sum <= minted; per claim: amount and recipient; non-trivial = distinct states after at least one minting block with a provider share",
+		Assumptions: append([]string{"halving ages > 0 are not reached (TotalReward stays far below the 400e12 cap in bounded runs)"}, lifeAssumptions...),
+		Scenarios: func(tier string) []*engine.Scenario {
+			d := 6
+			if tier == "thorough" {
+				d = 8
+			}
+			return []*engine.Scenario{
+				RewardScenario(RewardOpts{ID: "C08-above-baseline", Cfg: world.Config{BlockReward: 1_000_000, Baseline: 1, HalvingPeriod: 2000, AdjustmentPeriod: 11}, Depth: d, Store: true}),
+				RewardScenario(RewardOpts{ID: "C08-below-baseline", Cfg: world.Config{BlockReward: 1_000_000, Baseline: 1_000_000_000_000_000, HalvingPeriod: 11, AdjustmentPeriod: 11}, Depth: d}),
+			}
+		}})
+	authAssume := []string{"principals: owner, read-write grantee, read-only grantee, stranger (did:key) and a sid owner/attacker pair; relayers: the named gateway and the adversary's own registered node", "signature scheme and DID resolution of the sao-did library are trusted", "SDK modules are trusted"}
+	register(&Check{ID: "C09", Level: "model_checking", Workers: 16,
+		Rule: "explicit-state DFS over a small lifecycle (authorised updates by owner / rw grantee, renew, permission change, terminate, completion, blocks) in which EVERY state offers every unauthorised request: {update, force-push, renew, terminate, permission} x signer {ro grantee, stranger, rw grantee for owner-only types} x relayer {named gateway, adversary's node} x crafted commit ids / owner-field mismatch / replayed signatures / sid kid variants; an accepted unauthorised request must leave the model record, alias, orders, shards and expiry entry byte-identical; non-trivial = distinct states with a committed model",
+		Assumptions: authAssume,
+		Scenarios:   func(tier string) []*engine.Scenario { return []*engine.Scenario{C09Scenario(tier)} }})
+	register(&Check{ID: "C10", Level: "model_checking", Workers: 16,
+		Rule: "explicit-state DFS over a small lifecycle with an adversary node whose declared TxAddresses range over subsets of {order creator, provider, itself}; in every state every message type with a creator/provider pair is sent by the adversary claiming {itself, the order's gateway, the shard's provider}, plus third-party and sponsor-misuse store submissions; every accepted adversarial message must leave all orders, shards, pledges, nodes, workers, models and all other actors' balances byte-identical; non-trivial = distinct states with a committed model",
+		Assumptions: authAssume,
+		Scenarios:   func(tier string) []*engine.Scenario { return []*engine.Scenario{C10Scenario(tier)} }})
+	register(&Check{ID: "C17", Level: "model_checking", Workers: 16,
+		Rule: "explicit-state DFS over the did alphabet: Binding(account in {A,B,C,eip155 E} x did in {d1,d2} x creator x proof in {valid, stale, signed by another key, proof for the other DID replayed, malformed}), Update (every partition of the account list into remove/keep, by a bound account and by a stranger), UpdatePaymentAddress (sid and key DIDs x creator x account); registry agreement clauses in every state, binding/unbinding/payment-address step clauses on every transition; non-trivial = distinct states with at least one binding",
+		Assumptions: []string{"secp256k1 / EIP-191 signature verification is trusted", "three cosmos accounts, one eip155 account, two sid DIDs, two key DIDs"},
+		Scenarios:   func(tier string) []*engine.Scenario { return []*engine.Scenario{C17Scenario(tier)} }})
 	reg("C13", true, nil)
 	reg("C11", true, nil)
 	reg("C12", true, nil)
